@@ -1,5 +1,10 @@
 #!/bin/sh
-# tools/seed_matrix.sh [-j N] <seed> ... : try_seed for each named seed (default: all), N at a time; prints one line per seed.
+# tools/seed_matrix.sh [-j N] <seed> ... : try_seed for each named seed (default: all), N at a time, from a snapshot copy of /verif
+# (so that /verif can be edited while it runs); prints one line per seed.
 j=4; [ "$1" = "-j" ] && { j=$2; shift 2; }
 seeds="$*"; [ -z "$seeds" ] && seeds=$(ls /verif/seeded)
-echo $seeds | tr ' ' '\n' | xargs -P $j -I{} sh -c '/verif/tools/try_seed.sh {} 2>&1 | tail -1'
+snap=$(mktemp -d /tmp/verif-snap-XXXXXX)
+rsync -a --exclude .git --exclude .cache --exclude replays /verif/ "$snap"/
+mkdir -p /verif/.cache "$snap/replays"; ln -s /verif/.cache "$snap/.cache"
+echo $seeds | tr ' ' '\n' | VERIF_SNAP="$snap" xargs -P $j -I{} sh -c '/verif/tools/try_seed.sh {} 2>&1 | tail -1'
+rm -rf "$snap"
